@@ -211,6 +211,26 @@ def check(run):
             run.count(1, (d2x, 'out', n), True, d2x + '-out-of-range')
             if not is_err(r, '#NUM!'):
                 run.violation('%s(%d) outside the range is %r, expected #NUM!' % (d2x, n, show(r)), {'op': d2x, 'n': n})
+        # places: as a number and as the 1x1 array a cell reference delivers; the padded text reads back as the same number,
+        # a negative number keeps its ten digits
+        import numpy as np
+        pl_vals = sorted({-y, -1, 0, 1, 2, 5, y - 1, y // 3, -y // 3} | {rnd.randint(-y, y - 1) for _ in range(40 if quick else 2000)})
+        for n in pl_vals:
+            for p_ in (-1, 0, 1, 3, 9, 10, 11):
+                s1 = call(d2x, n, p_)
+                s2 = call(d2x, np.array([[n]], object), np.array([[p_]], object))
+                run.count(1, (d2x, n, 'places', p_), True, d2x + '-places')
+                if show(s1) != show(s2):
+                    run.violation('%s(%d, %d) is %r with numbers and %r with the same values taken from cells' % (d2x, n, p_, show(s1), show(s2)),
+                                  {'op': d2x, 'n': n, 'places': p_})
+                if isinstance(s1, str) and not is_err(s1):
+                    back = call(x2d, s1)
+                    if back != n or (n < 0 and s1 != call(d2x, n)):
+                        run.violation('%s(%d, %d) = %r does not read back as %d' % (d2x, n, p_, s1, n), {'op': d2x, 'n': n, 'places': p_, 'back': show(back)})
+                elif not is_err(s1, '#NUM!'):
+                    run.violation('%s(%d, %d) is %r, neither a text nor #NUM!' % (d2x, n, p_, show(s1)), {'op': d2x, 'n': n, 'places': p_})
+                ask('dec2xp %d %d %d' % (base_, n, p_), lambda a, s1=s1, n=n, p_=p_, d2x=d2x: (dec(a) if a.startswith('u') else a) == show(s1) or run.disagree(
+                    '%s(%d, %d): model %s, implementation %s' % (d2x, n, p_, a, show(s1)), {'op': d2x, 'n': n, 'places': p_}))
         digits = '0123456789ABCDEF'[:base_]
         bad = ['-1', '+1', ' 1', '1 ', '1_0', '0b1', '0x1', '0o7', 'G', 'Z1', '1.0', digits[-1] * 11,
                '1' + digits[0] * 10, {2: '2', 8: '8', 16: 'g'}[base_]]
